@@ -13,6 +13,7 @@ RULE = ("distinct (transform, configuration, input size, input kind, seed) tuple
 def run(res):
     run_contracts(res, cg.CONTRACTS, cg.REGISTRY)
     frames.patchify_patterns_mirror(res)
+    frames.ctx_entries_not_aliases(res)
     r, n, per = rp.search(thorough=(res.tier == "thorough"))
     add_direct(res, "bounded:geometry-image-level", "bounded", r is None, backend="bounded", model=r,
                note="real transforms on id-coded tensor / PIL inputs: output size, recorded box inside the (padded) input, functional op driven by ctx "
